@@ -1,3 +1,52 @@
-From Cache Require Import Base Index.
-Theorem C15_placeholder : True. Proof. exact I. Qed.
-Print Assumptions C15_placeholder.
+(* C15 — label invalidation is complete, precise and loses nothing on failure. Statements only.
+   The theorems are about one cache name (InvalidateByLabels runs the same procedure for every name
+   and stops at the first failure); keys, labels, incidence structure (repeats included), label
+   argument lists (any order, repeated arguments), caches per name, cache contents, outage sets and
+   interleaved AddLabels calls [mid] are all universally quantified. *)
+From Cache Require Import Base Index IndexProofs.
+
+(* A call that returns nil: every key labelled with one of the labels is absent from every cache
+   registered under the name; keys carrying none of the labels are untouched in every cache; caches
+   of other names are untouched; nothing is ever added. *)
+Theorem C15_complete_precise : forall broken lk cs ds ls mid cnt lk' cs',
+  invalidate_name broken lk cs ds ls mid = (true, cnt, lk', cs') ->
+  (forall k, labelled lk ls k -> absent cs' ds k) /\
+  (forall c k, ~ labelled lk ls k -> (has cs' c k <-> has cs c k)) /\
+  (forall c, c ∉ ds -> forall k, has cs' c k <-> has cs c k) /\
+  only_removes cs cs' /\ 0 <= cnt.
+Proof. exact invalidate_name_ok. Qed.
+Print Assumptions C15_complete_precise.
+
+(* Without an outage the call always succeeds (and the model is a total function: no panic). *)
+Theorem C15_succeeds_without_outage : forall lk cs ds ls mid,
+  exists cnt lk' cs', invalidate_name [] lk cs ds ls mid = (true, cnt, lk', cs').
+Proof. exact invalidate_name_no_outage. Qed.
+Print Assumptions C15_succeeds_without_outage.
+
+(* A deleter failure at any position: every labelled key is either already gone from all caches of
+   the name or still indexed under its label; unlabelled keys are untouched. *)
+Theorem C15_failure_keeps_index : forall broken lk cs ds ls mid cnt lk' cs',
+  invalidate_name broken lk cs ds ls mid = (false, cnt, lk', cs') ->
+  (forall l k, l ∈ ls -> k ∈ default [] (lk !! l) -> absent cs' ds k \/ k ∈ default [] (lk' !! l)) /\
+  (forall c k, ~ labelled lk ls k -> (has cs' c k <-> has cs c k)) /\
+  only_removes cs cs' /\ 0 <= cnt.
+Proof. exact invalidate_name_fail. Qed.
+Print Assumptions C15_failure_keeps_index.
+
+(* A retry after recovery succeeds and removes everything that was labelled before the failed call. *)
+Theorem C15_retry : forall broken lk cs ds ls mid cnt lk' cs',
+  invalidate_name broken lk cs ds ls mid = (false, cnt, lk', cs') ->
+  exists cnt2 lk2 cs2, invalidate_name [] lk' cs' ds ls [] = (true, cnt2, lk2, cs2) /\
+    forall k, labelled lk ls k -> absent cs2 ds k.
+Proof. exact invalidate_name_retry. Qed.
+Print Assumptions C15_retry.
+
+Example C15_nonvacuous :
+  let lk : gmap label (list key) := add_labels (add_labels (add_labels ∅ [1%N] [1%N; 2%N]) [2%N] [1%N]) [3%N] [2%N] in
+  let cs : gmap cid (list key) := <[1%N := [[1%N]; [2%N]; [3%N]; [9%N]]]> (<[2%N := [[2%N]; [3%N]]]> ∅) in
+  (* cache 2 is down for key 2: the call fails after deleting key 1, key 2 stays indexed under label 1 *)
+  match invalidate_name [(2%N, [2%N])] lk cs [1%N; 2%N] [1%N; 1%N; 2%N] [] with
+  | (ok, cnt, lk', cs') => ok = false /\ cnt = 2 /\ default [] (lk' !! 1%N) = [[2%N]] /\ default [] (lk' !! 2%N) = [[3%N]]
+                           /\ default [] (cs' !! 1%N) = [[3%N]; [9%N]]
+  end.
+Proof. vm_compute. repeat split; reflexivity. Qed.
